@@ -61,47 +61,82 @@ def bishopDirs : List (Int × Int) := [(1,1),(1,-1),(-1,1),(-1,-1)]
 def leap (deltas : List (Int × Int)) (s : Nat) : List Nat :=
   deltas.filterMap fun d => if onBoard (sx s + d.1) (sy s + d.2) then some (sqOf (sx s + d.1) (sy s + d.2)) else none
 
-/-- the squares passed walking from `(x, y)` in direction `(dx, dy)`, up to and including the first occupied one -/
-def ray (occ : List Nat) (dx dy : Int) : Nat → Int → Int → List Nat
+/-- the squares met walking from `(x, y)` in direction `(dx, dy)` on an empty board, nearest first -/
+def walk (dx dy : Int) : Nat → Int → Int → List Nat
   | 0, _, _ => []
   | fuel+1, x, y =>
-    if onBoard (x + dx) (y + dy) then
-      let s := sqOf (x + dx) (y + dy)
-      if occ.contains s then [s] else s :: ray occ dx dy fuel (x + dx) (y + dy)
-    else []
+    if onBoard (x + dx) (y + dy) then sqOf (x + dx) (y + dy) :: walk dx dy fuel (x + dx) (y + dy) else []
 
-def slide (dirs : List (Int × Int)) (occ : List Nat) (s : Nat) : List Nat :=
-  dirs.flatMap fun d => ray occ d.1 d.2 7 (sx s) (sy s)
-
-/-- the squares a man of kind `k` standing on `s` attacks / can move to, given the occupied squares
-    (own men included; they are removed later) -/
-def reach (k : Kind) (occ : List Nat) (s : Nat) : List Nat :=
+/-- the lines along which a man of kind `k` on `s` acts: one line per direction for Q, R, B (squares in walking
+    order), one single-square line per jump for K and N -/
+def linesSpec (k : Kind) (s : Nat) : List (List Nat) :=
   match k with
-  | .K => leap kingDeltas s
-  | .N => leap knightDeltas s
-  | .R => slide rookDirs occ s
-  | .B => slide bishopDirs occ s
-  | .Q => slide rookDirs occ s ++ slide bishopDirs occ s
+  | .K => (leap kingDeltas s).map fun t => [t]
+  | .N => (leap knightDeltas s).map fun t => [t]
+  | .R => rookDirs.map fun d => walk d.1 d.2 7 (sx s) (sy s)
+  | .B => bishopDirs.map fun d => walk d.1 d.2 7 (sx s) (sy s)
+  | .Q => (rookDirs ++ bishopDirs).map fun d => walk d.1 d.2 7 (sx s) (sy s)
+
+def kindIdx : Kind → Nat
+  | .K => 0 | .Q => 1 | .R => 2 | .B => 3 | .N => 4
+def kindOfIdx : Nat → Kind
+  | 0 => .K | 1 => .Q | 2 => .R | 3 => .B | _ => .N
+
+/-- `linesSpec` tabulated once (entry `kindIdx k * 64 + s`); see `lines_eq` in GameLemmas -/
+def linesTab : Array (List (List Nat)) := Array.ofFn (n := 320) fun i => linesSpec (kindOfIdx (i.val / 64)) (i.val % 64)
+
+@[inline] def lines (k : Kind) (s : Nat) : List (List Nat) := linesTab.getD (kindIdx k * 64 + s) []
+
+/-- a set of squares as a 64-bit mask (bit `s` = square `s`), like Texel's bitboards -/
+abbrev SqSet := UInt64
+@[inline] def SqSet.has (m : SqSet) (s : Nat) : Bool := (m >>> s.toUInt64) &&& 1 != 0
+/-- the set of the squares `< 64` in the list -/
+def sqSetOf : List Nat → SqSet
+  | [] => 0
+  | s :: l => if s < 64 then sqSetOf l ||| ((1 : UInt64) <<< s.toUInt64) else sqSetOf l
+
+/-- a line up to and including the first occupied square -/
+def cut (occ : SqSet) : List Nat → List Nat
+  | [] => []
+  | q :: l => if occ.has q then [q] else q :: cut occ l
+
+/-- `t` lies on the line with no occupied square before it -/
+def hits (occ : SqSet) (t : Nat) : List Nat → Bool
+  | [] => false
+  | q :: l => q == t || (!occ.has q && hits occ t l)
+
+/-- the squares a man of kind `k` standing on `s` can move to by the movement rules, given the occupied squares
+    (squares holding men of its own side are removed later) -/
+def reach (k : Kind) (occ : SqSet) (s : Nat) : List Nat := (lines k s).flatMap (cut occ)
+
+/-- a man of kind `k` standing on `s` attacks `t` (`reach_contains` in GameLemmas: iff `t ∈ reach k occ s`) -/
+def attacks (k : Kind) (occ : SqSet) (s t : Nat) : Bool := (lines k s).any (hits occ t)
 
 /-! ## Positions -/
 
-def Pos.occ (p : Pos) : List Nat := p.sq.filter (· < 64)
+/-- the occupied squares -/
+def Pos.occ (p : Pos) : SqSet := sqSetOf p.sq
 
 def distinct : List Nat → Bool
   | [] => true
   | a :: l => !l.contains a && distinct l
 
+/-- no two men on the board share a square (64 = captured may repeat) -/
+def distinctPresent : List Nat → Bool
+  | [] => true
+  | a :: l => (a ≥ 64 || !l.contains a) && distinctPresent l
+
 /-- every slot has a square or is captured, both kings are on the board, no two men share a square -/
 def wellFormed (c : CC) (p : Pos) : Bool :=
   p.sq.length == c.n && p.sq.all (· ≤ 64) &&
-  p.sq.getD 0 captured < 64 && p.sq.getD c.nWhite captured < 64 && distinct p.occ
+  p.sq.getD 0 captured < 64 && p.sq.getD c.nWhite captured < 64 && distinctPresent p.sq
 
 def kingSq (c : CC) (p : Pos) (white : Bool) : Nat := p.sq.getD (if white then 0 else c.nWhite) captured
 
 /-- is `t` attacked by one of the men `slots ↦ sqs` of colour `white` (`occ` = all occupied squares) -/
-def attackedBy (occ : List Nat) (white : Bool) (t : Nat) : List (Bool × Kind) → List Nat → Bool
+def attackedBy (occ : SqSet) (white : Bool) (t : Nat) : List (Bool × Kind) → List Nat → Bool
   | sl :: slots, s :: sqs =>
-    (sl.1 == white && s < 64 && (reach sl.2 occ s).contains t) || attackedBy occ white t slots sqs
+    (sl.1 == white && s < 64 && attacks sl.2 occ s t) || attackedBy occ white t slots sqs
   | _, _ => false
 
 /-- is square `t` attacked by a man of colour `white` -/
@@ -130,17 +165,17 @@ def ownSquares (white : Bool) : List (Bool × Kind) → List Nat → List Nat
   | _, _ => []
 
 /-- moves of the men in slots `i, i+1, …` -/
-def movesFrom (c : CC) (p : Pos) (occ own : List Nat) (ek : Nat) : Nat → List (Bool × Kind) → List Nat → List Pos
+def movesFrom (c : CC) (p : Pos) (occ own : SqSet) (ek : Nat) : Nat → List (Bool × Kind) → List Nat → List Pos
   | i, sl :: slots, s :: sqs =>
     (if sl.1 == p.wtm && s < 64 then
-      ((reach sl.2 occ s).filter fun t => !own.contains t && t != ek).map fun t => makeMove c p i t
+      ((reach sl.2 occ s).filter fun t => !own.has t && t != ek).map fun t => makeMove c p i t
      else []) ++ movesFrom c p occ own ek (i+1) slots sqs
   | _, _, _ => []
 
 /-- all moves by the movement rules alone: a man of the side to move goes to a square it reaches that is not
     occupied by a man of its own side and is not the opposing king's square -/
 def pseudoMoves (c : CC) (p : Pos) : List Pos :=
-  movesFrom c p p.occ (ownSquares p.wtm c.slots p.sq) (kingSq c p (!p.wtm)) 0 c.slots p.sq
+  movesFrom c p p.occ (sqSetOf (ownSquares p.wtm c.slots p.sq)) (kingSq c p (!p.wtm)) 0 c.slots p.sq
 
 /-- the legal moves: those after which the mover's king cannot be taken -/
 def moves (c : CC) (p : Pos) : List Pos := (pseudoMoves c p).filter (legal c)
